@@ -416,7 +416,14 @@ func c06Basics(c *Ctx) {
 					el, ok = v.valueOf(p.Vals[0])
 				}
 				pr, isP := el.(TProj)
-				if !ok || !isP || pr.K != 0 || !sameTerm(pr.X, conds[0].T.(TProj).X) {
+				same := ok && isP && pr.K == 0 && sameTerm(pr.X, conds[0].T.(TProj).X)
+				if ix, isIx := el.(TIndex); ok && isIx && !same {
+					// the one-result lookup spine[key] after the presence test (KeyExists followed): the same field
+					if cx, isCx := conds[0].T.(TProj).X.(TIndex); isCx && sameTerm(eraseEpochs(ix), eraseEpochs(cx)) {
+						same = true
+					}
+				}
+				if !same {
 					msg = "a present key does not return spine[key].getVal()"
 				}
 			} else if p.End != "panic" {
